@@ -24,7 +24,7 @@ BUDGET = {'quick': {'runs': 5000, 'cap_s': 30, 'wall_s': 100, 'chunk': 40},
 PROD_EXTRA = ['rank_transform', 'rank_transform_twice', 'sqrt_transform', 'positive_transform', 'minmax_transform',
               'geotopological_transform', 'geodesic_transform', 'transform_fun', 'rescale', 'mean', 'compare', 'pool_rdm',
               'model_predict', 'model_fit', 'eval_fixed', 'bootstrap_sample', 'sets_k_fold', 'boot_noise_ceiling',
-              'get_vectors_write']
+              'get_vectors_write', 'tmpfile_save']
 WEIGHTS = [(n, w) for n, w in c10.WEIGHTS if n not in ('size_recovery', 'to_df')] + [(n, 1.5) for n in PROD_EXTRA]
 PRODUCERS = set(c10.PRODUCERS) | set(PROD_EXTRA)
 
